@@ -359,6 +359,25 @@ func mutateTag(t *rapid.T, label, tag string, sd sideM) string {
 type ampOpt struct {
 	alpha   string
 	partial bool
+	// shape (pieces of mosaic reads): "" as drawn by the options above;
+	//   "complete"    both primers within budget
+	//   "open_only"   broken before (or inside) its closing primer
+	//   "close_only"  broken after (or inside) its opening primer
+	//   "open_over"   opening primer over the mismatch budget
+	//   "close_over"  closing primer over the mismatch budget
+	shape      string
+	minBarcode int // added to the drawn barcode length
+}
+
+// withinBudget draws a number of primer mismatches the sheet allows.
+func withinBudget(t *rapid.T, label string, sd sideM) int {
+	switch pick(t, label+"_errs", 0, 0, 1, 2) {
+	case 0:
+		return 0
+	case 1:
+		return sd.Err
+	}
+	return rapid.IntRange(0, sd.Err).Draw(t, label+"_k")
 }
 
 // genAmplicon builds tag + spacer + primer + barcode + rc(primer) + rc(spacer) + rc(tag)
@@ -401,8 +420,20 @@ func genAmplicon(t *rapid.T, sh Sheet, ms []markerM, o ampOpt) (string, []string
 		}
 	}
 	over := false
-	fk := drawErrs(t, "fprimer", m.F, &over)
-	rk := drawErrs(t, "rprimer", m.R, &over)
+	var fk, rk int
+	if o.shape == "" {
+		fk = drawErrs(t, "fprimer", m.F, &over)
+		rk = drawErrs(t, "rprimer", m.R, &over)
+	} else {
+		fk = withinBudget(t, "fprimer", m.F)
+		rk = withinBudget(t, "rprimer", m.R)
+		switch o.shape {
+		case "open_over":
+			fk, over = m.F.Err+rapid.IntRange(1, 3).Draw(t, "fprimer_over"), true
+		case "close_over":
+			rk, over = m.R.Err+rapid.IntRange(1, 3).Draw(t, "rprimer_over"), true
+		}
+	}
 	if over {
 		cl = append(cl, "primer:over_budget")
 	}
@@ -437,7 +468,7 @@ func genAmplicon(t *rapid.T, sh Sheet, ms []markerM, o ampOpt) (string, []string
 		}
 		return f
 	}
-	barcode := gen.Seq(t, "barcode", gen.Len(t, "barcode_len", 1, 60, 1, 2, 3), o.alpha)
+	barcode := gen.Seq(t, "barcode", o.minBarcode+gen.Len(t, "barcode_len", 1, 60, 1, 2, 3), o.alpha)
 	left := flank("lflank", m.F) + ftag + spacer("fspacer", m.F) + fp
 	// the other end is assembled 5'->3' on the opposite strand, exactly like the left one
 	right := ref.RevComp(flank("rflank", m.R) + rtag + spacer("rspacer", m.R) + rp)
@@ -461,7 +492,66 @@ func genAmplicon(t *rapid.T, sh Sheet, ms []markerM, o ampOpt) (string, []string
 			}
 		}
 	}
+	switch o.shape {
+	case "open_only":
+		// the extension stopped in the barcode, or a few nucleotides into the closing primer
+		if chance(t, "break_in_primer", 25) {
+			amp = left + barcode + right[:rapid.IntRange(1, max(1, len(rp)/2)).Draw(t, "break_at")]
+		} else {
+			amp = left + barcode[:rapid.IntRange(min(o.minBarcode, len(barcode)), len(barcode)).Draw(t, "break_at")]
+		}
+	case "close_only":
+		if chance(t, "break_in_primer", 25) {
+			amp = left[len(left)-rapid.IntRange(1, max(1, len(fp)/2)).Draw(t, "break_at"):] + barcode + right
+		} else {
+			amp = barcode[len(barcode)-rapid.IntRange(min(o.minBarcode, len(barcode)), len(barcode)).Draw(t, "break_at"):] + right
+		}
+	}
 	return amp, cl
+}
+
+// genMosaic builds a chimeric read out of 2-4 pieces in any order and
+// orientation: complete amplicons, partial ones (opening primer only, closing
+// primer only, opening / closing primer over the mismatch budget) and junk.
+// Two priming sites of the same primer are kept apart (barcodes are at least
+// as long as the separation the site scan needs to tell them apart).
+func genMosaic(t *rapid.T, sh Sheet, ms []markerM, alpha string) (string, []string) {
+	sep := 0
+	for _, m := range ms {
+		sep = max(sep, m.F.Err, m.R.Err)
+	}
+	sep = 2*sep + 2
+	if n, indel := maxPrimerLen(ms); indel {
+		sep += n + 2
+	}
+	var seq string
+	var cl []string
+	seen := map[string]bool{}
+	add := func(c string) {
+		if !seen[c] {
+			seen[c] = true
+			cl = append(cl, c)
+		}
+	}
+	for k := pick(t, "npieces", 2, 2, 2, 3, 3, 4); k > 0; k-- {
+		shape := pick(t, "piece", "complete", "complete", "complete", "complete", "open_only", "open_only", "close_only", "close_only", "open_over", "close_over", "junk")
+		add("piece:" + shape)
+		var a string
+		if shape == "junk" {
+			a = gen.Seq(t, "junk", gen.Len(t, "junk_len", 0, 40, 1, 2), alpha)
+		} else {
+			var c []string
+			a, c = genAmplicon(t, sh, ms, ampOpt{alpha: alpha, shape: shape, minBarcode: sep})
+			for _, x := range c {
+				add(x)
+			}
+		}
+		if rapid.Bool().Draw(t, "orientation") {
+			a = ref.RevComp(a)
+		}
+		seq += a
+	}
+	return seq, cl
 }
 
 func maxPrimerLen(ms []markerM) (n int, indel bool) {
@@ -475,7 +565,12 @@ func maxPrimerLen(ms []markerM) (n int, indel bool) {
 // genRead draws one read of the sheet; classes describe how it was built.
 func genRead(t *rapid.T, sh Sheet, ms []markerM) (Read, []string) {
 	alpha := pick(t, "alphabet", gen.ACGT, gen.ACGT, gen.ACGT, "ac", "gt", "at")
-	kind := pick(t, "read_kind", "amplicon", "amplicon", "amplicon", "amplicon", "amplicon", "amplicon", "chimera", "chimera", "partial", "partial", "random")
+	kind := pick(t, "read_kind", "amplicon", "amplicon", "amplicon", "amplicon", "amplicon", "amplicon", "chimera", "chimera", "partial", "partial", "random", "mosaic")
+	return genReadOf(t, sh, ms, alpha, kind)
+}
+
+// genReadOf draws one read of the given kind.
+func genReadOf(t *rapid.T, sh Sheet, ms []markerM, alpha, kind string) (Read, []string) {
 	cl := []string{"built:" + kind}
 	var seq string
 	build := func() {
@@ -498,11 +593,25 @@ func genRead(t *rapid.T, sh Sheet, ms []markerM) (Read, []string) {
 				}
 				seq += a
 			}
+		case "mosaic":
+			var c []string
+			seq, c = genMosaic(t, sh, ms, alpha)
+			cl = append(cl[:1], c...)
 		default:
 			seq = gen.Seq(t, "random_read", gen.Len(t, "random_len", 0, 120, 1, 8, 9, 20), alpha)
 		}
 	}
 	build()
+	if kind == "mosaic" {
+		// accidental, overlapping or crossed sites leave the read to the safety clause only: re-draw (bounded)
+		c, _, _ := classify(ms, Read{Seq: seq})
+		for try := 0; try < 2 && c == "other"; try++ {
+			evid.Class("redrawn_after_accidental_site", 1)
+			build()
+			c, _, _ = classify(ms, Read{Seq: seq})
+		}
+		cl = append(cl, "mosaic_sites:"+c)
+	}
 	intended := func() bool { // built to carry well-formed sites only
 		for _, c := range cl {
 			if c == "primer:over_budget" || c == "primer:with_indel" || c == "partial_site" {
